@@ -7,6 +7,9 @@ def P(index, level, quick, thorough, **kw):
     return d
 
 PROPS = {
+    "C09": P(9, "exploration",
+             quick=dict(checks=6000, timeout=600),
+             thorough=dict(checks=60000, shards=8, timeout=1800, fuzz=[("FuzzC09", 180)])),
     "C19": P(19, "exploration",
              quick=dict(checks=3000, timeout=300),
              thorough=dict(checks=40000, shards=4, timeout=900)),
